@@ -70,7 +70,7 @@ func init() {
 	register(&Property{
 		ID:    "C16",
 		Level: "exploration",
-		Rule: "arrays of length n (quick: 0,1,2,3,7,20; thorough: 0..20) of distinct strings or integers, held in a json / yaml / jsonl typed variable; every k in [-30,30] through `[k]` and `[[/k]]` (exhaustive), `![ k ]` and PRNG multi-index tuples (crash-freedom; values too when all indexes are in range), maps with random present and absent keys; " +
+		Rule: "arrays of length n (quick: 0,1,2,3,7,20; thorough: 0..20) of distinct strings or integers, held in a json / yaml / jsonl typed variable; every k in [-30,30] through `[k]` and `[[/k]]` (exhaustive), `![ k ]` and PRNG multi-index tuples (crash-freedom; values too when all indexes are in range), maps with random present and absent keys, a third of them with a null-valued key next to a sibling key that differs only in letter case; " +
 			"oracle: in range => element (negative from the end), exit 0; out of range => exit != 0 and non-empty stderr; never panic/crash text; non-trivial = k negative, or k >= n-1, or a multi/map lookup; distinct by (type, command, n, k)",
 		Assumptions: []string{"documents are placed in a typed variable through the Variables API and piped with `$a -> [k]`", "for jsonl an element may be returned raw or JSON-encoded (one line)", "absent map keys and `![` are only checked for crash-freedom (the statement does not define their result)"},
 		Run: func(x *Ctx) {
@@ -179,6 +179,29 @@ func init() {
 					mk(c16Expect{Cmd: "mapkey-element", Type: typ, N: nk, Key: k, InRng: true, Want: []string{keys[k]}, Strict: true}, typ, doc, "$a -> [[/"+k+"]]")
 					mk(c16Expect{Cmd: "mapabsent", Type: typ, N: nk, Key: "zz" + k}, typ, doc, "$a -> [zz"+k+"]")
 					mk(c16Expect{Cmd: "mapabsent-element", Type: typ, N: nk, Key: "zz" + k}, typ, doc, "$a -> [[/zz"+k+"]]")
+				}
+				// a key whose value is null, next to a sibling that differs only in letter case:
+				// `[key]` returns that key's value (nothing, exit 0), not the sibling's and not an error
+				if i%3 == 0 {
+					k := order[r.Intn(len(order))]
+					up := strings.ToUpper(k)
+					jdoc := map[string]any{}
+					ydoc := ""
+					for _, o := range order {
+						if o == k {
+							jdoc[o] = nil
+							ydoc += o + ": null\n"
+						} else {
+							jdoc[o] = keys[o]
+							ydoc += o + ": " + keys[o] + "\n"
+						}
+					}
+					jdoc[up] = "sibling"
+					ydoc += up + ": sibling\n"
+					jb, _ := json.Marshal(jdoc)
+					mk(c16Expect{Cmd: "mapkey-null", Type: "json", N: nk + 1, Key: k, InRng: true, Want: []string{""}, Strict: true}, "json", string(jb), "$a -> ["+k+"]")
+					mk(c16Expect{Cmd: "mapkey-null", Type: "yaml", N: nk + 1, Key: k, InRng: true, Want: []string{""}, Strict: true}, "yaml", ydoc, "$a -> ["+k+"]")
+					mk(c16Expect{Cmd: "mapkey-sibling", Type: "json", N: nk + 1, Key: up, InRng: true, Want: []string{"sibling"}, Strict: true}, "json", string(jb), "$a -> ["+up+"]")
 				}
 			}
 			x.RunAll(pool, cases)
